@@ -24,6 +24,9 @@ func calleeOfSym(s *Sym) (*ssa.Function, *ssa.Call) {
 	if !ok {
 		return nil, nil
 	}
+	if s.Fn != nil {
+		return s.Fn, c
+	}
 	return c.Call.StaticCallee(), c
 }
 
